@@ -86,10 +86,16 @@ GenericEdits(m) ==
       \cup { e("trailing", bs \o << b >>) : b \in {0, 255} }
       \cup { e("insert", SubSeq(bs, 1, i) \o << b >> \o SubSeq(bs, i + 1, n)) : i \in 0..n, b \in {0, 128, 255} }
       \cup { e("delete", SubSeq(bs, 1, i - 1) \o SubSeq(bs, i + 1, n)) : i \in 1..n }
+(* thorough: besides the hand-picked seeds, every small packet that deviates *)
+(* from the default in one field                                            *)
+SeedsFor(g) ==
+  IF Tier = "quick" \/ Trivial(g) THEN Seeds(g)
+  ELSE Seeds(g) \cup { q \in { Fix(a) : a \in OneWise(Def(g.k, g.v, g.w), Alt(g.k, g.v, g.w, "med")) } :
+                         ValidPacket(q) /\ SizeOf(q) <= 90 }
 Structural(m) == m.op \notin {"truncate", "flip", "insert", "delete", "trailing", "seed", "flags"}
 NextC04 ==
   \/ /\ stage = "root"
-     /\ \E g \in Groups : \E s \in Seeds(g) : stage' = "slice" /\ x' = s
+     /\ \E g \in Groups : \E s \in SeedsFor(g) : stage' = "slice" /\ x' = s
   \/ /\ stage = "slice"
      /\ \E m \in Mutants(x) : stage' = "item" /\ x' = m
   \/ /\ stage = "item" /\ Tier = "thorough" /\ Structural(x)
